@@ -486,6 +486,7 @@ theorem sysInv_step {lits : Heap} {ts : List Thread} {s : Sys} (n : Nat)
             refine ⟨?_, Or.inl rfl⟩
             rw [pushAt_length]
             exact inv.regs i t b hi hb
+      | bindRaw lit => exact absurd hop id
       | bind lit =>
         obtain ⟨l, o, hlit, hlo, hfo⟩ := hop
         subst hlit
